@@ -324,6 +324,42 @@ func c14Isolation() []string {
 		problems = append(problems, "a script changed env.NilValue for the whole process: it now holds "+now)
 		env.NilValue.Set(reflect.Zero(env.NilValue.Type()))
 	}
+	// what a run leaves behind in its environment keeps belonging to that environment: closures made inside branches, loops,
+	// try blocks and switch cases of one shared tree are called after the tree has run in other environments
+	for _, src := range []string{
+		"get = nil; if who != \"\" { get = func() { return who } }",
+		"get = nil; if who == \"\" { } else if true { get = func() { return who } }",
+		"get = nil; if who == \"\" { } else { get = func() { return who } }",
+		"get = nil; for i in [1] { get = func() { return who } }",
+		"get = nil; for i = 0; i < 1; i++ { get = func() { return who } }",
+		"get = nil; try { get = func() { return who } } catch e { }",
+		"get = nil; try { throw 1 } catch e { get = func() { return who } }",
+		"get = nil; switch 1 {\ncase 1: get = func() { return who }\n}",
+		"get = nil; func mk() { return func() { return who } }; get = mk()",
+		"get = nil; module m { func g() { return who } }; get = m.g"} {
+		tree, err := ankoparser.ParseSrc(src)
+		if err != nil {
+			problems = append(problems, "does not parse: "+src)
+			continue
+		}
+		names := []string{"alice", "bob", "carol", "dave"}
+		var envs []*env.Env
+		for _, n := range names {
+			e := env.NewEnv()
+			e.Define("who", n)
+			envs = append(envs, e)
+			if _, err := vm.Run(e, nil, tree); err != nil {
+				problems = append(problems, fmt.Sprintf("%q fails: %v", src, err))
+			}
+		}
+		for round := 0; round < 2; round++ {
+			for i, e := range envs {
+				if v, err := run(e, "get()"); err != nil || v != names[i] {
+					problems = append(problems, fmt.Sprintf("%q run on four environments in turn: the closure left in the environment of %s answers %v %v", src, names[i], v, err))
+				}
+			}
+		}
+	}
 	// runs that are deep in their own recursion at the same moment do not draw on anything common: one tree, six fresh
 	// environments, every run waits at the bottom of its recursion until all have arrived
 	if tree, err := ankoparser.ParseSrc("func down(n) { if n == 0 { arrive(); return 0 }; return 1 + down(n - 1) }; down(2500)"); err == nil {
